@@ -16,4 +16,5 @@ void sr_thread_begin(int id);
 void sr_thread_end(void);
 void sr_before_lock(void *m);
 void sr_after_unlock(void *m);
+extern int sr_unlock_points;  /* also schedule right after every unlock */
 #endif
